@@ -155,6 +155,19 @@ def correspond(ctx, corr, model_ok):
                  'distinct = distinct frame value or byte string; all are non-trivial (each exercises a full '
                  'encode/decode)')
     items = _cases(ctx, corr)
+    # the incrementally written form under back-pressure: many frames through one TCP transport whose writer queues by
+    # reference, as a congested socket does
+    for k in range(ctx.scale(40, 400)):
+        env = FR.Env()
+        frs = [FR.gen_frame(ctx.rng, env, big=False) for _ in range(ctx.rng.randint(2, 7))]
+        got, want = FR.tcp_congested(frs)
+        corr.evaluations += 1
+        corr.count('congested TCP writer')
+        if got != want:
+            corr.oracle_failures.append({'what': 'frames written through one congested TCP transport are not the concatenation of '
+                                                 'their one-shot encodings', 'kind': 'tcp-congested',
+                                         'frames': [{kk: (v.hex() if isinstance(v, (bytes, bytearray)) else v) for kk, v in f.items()} for f in frs],
+                                         'got_hex': got.hex()[:200], 'want_hex': want.hex()[:200]})
     if not model_ok:
         return
     shards = ['Definition cases : list case02 := [\n' + ';\n'.join(x[0] for x in ch) + '\n].'
@@ -190,6 +203,19 @@ def _unhex(fr):
 def replay(obj):
     import ast
     case = obj['case']
+    if case.get('kind') == 'tcp-congested':
+        frs = []
+        for f in case['frames']:
+            g = {}
+            for k, v in f.items():
+                if k in ('md', 'd', 'token', 'mdenc', 'denc') and isinstance(v, str):
+                    v = bytes.fromhex(v)
+                if k == 'resume' and isinstance(v, list):
+                    v = (v[0], bytes.fromhex(v[1]) if isinstance(v[1], str) else v[1])
+                g[k] = v
+            frs.append(g)
+        got, want = FR.tcp_congested(frs)
+        return got != want
     if case.get('kind') == 'dec':
         b = bytes.fromhex(case['buf'])
         rn = FR.run_batch_backend([('dec', b)], native=True)[0]
